@@ -12,6 +12,7 @@ import (
 	"regexp"
 	"sort"
 	"strings"
+	"sync"
 	"time"
 
 	"golang.org/x/tools/go/packages"
@@ -37,10 +38,10 @@ var stubPkgs = []string{
 
 type cfg struct {
 	repo, hdir, prop, tier, run, outDir, evidence, known string
-	workers, seed, maxPaths, samples, timeoutMs, unwind   int
-	deadline                                               time.Duration
-	verbose, noReplay                                      bool
-	level                                                  string
+	workers, seed, maxPaths, samples, timeoutMs, unwind  int
+	deadline                                             time.Duration
+	verbose, noReplay                                    bool
+	level                                                string
 }
 
 func goEnv(newToolchain bool) []string {
@@ -244,24 +245,50 @@ func run(c *cfg) int {
 	os.MkdirAll(env.DumpDir, 0o755)
 
 	var results []*harnessResult
+	env.Sem = make(chan struct{}, c.workers)
+	type item struct {
+		name string
+		fn   *ssa.Function
+		rel  string
+	}
+	var items []item
 	for _, p := range pkgs {
 		rel := strings.TrimPrefix(p.PkgPath, modPath+"/")
 		names := selected[rel]
 		sort.Strings(names)
 		sp := prog.Package(p.Types)
 		for _, n := range names {
+			if c.tier != "thorough" && strings.HasSuffix(n, "_Thorough") {
+				continue
+			}
 			fn := sp.Func(n)
 			if fn == nil {
 				return fail(c, "harness function not found in SSA: "+n)
 			}
-			hs := time.Now()
-			h, st := env.Explore(n, fn)
-			w := time.Since(hs).Seconds()
-			results = append(results, &harnessResult{run: h, stats: st, pkg: rel, wall: w})
-			fmt.Printf("[symgo] %-40s paths=%d completed=%d pruned=%d panicked=%d errors=%d violations=%d queries=%d solver=%.1fs wall=%.1fs\n",
-				n, h.Paths, h.Completed, h.Pruned, h.Panicked, len(h.Errors), len(h.Violations), st.Queries, st.Seconds, w)
+			items = append(items, item{n, fn, rel})
 		}
 	}
+	if len(items) == 0 {
+		return fail(c, "no harness functions selected for tier "+c.tier)
+	}
+	results = make([]*harnessResult, len(items))
+	var wg sync.WaitGroup
+	par := make(chan struct{}, 6)
+	for i, it := range items {
+		wg.Add(1)
+		go func() {
+			defer wg.Done()
+			par <- struct{}{}
+			defer func() { <-par }()
+			hs := time.Now()
+			h, st := env.Explore(it.name, it.fn)
+			w := time.Since(hs).Seconds()
+			results[i] = &harnessResult{run: h, stats: st, pkg: it.rel, wall: w}
+			fmt.Printf("[symgo] %-40s paths=%d completed=%d pruned=%d panicked=%d errors=%d violations=%d queries=%d solver=%.1fs wall=%.1fs\n",
+				it.name, h.Paths, h.Completed, h.Pruned, h.Panicked, len(h.Errors), len(h.Violations), st.Queries, st.Seconds, w)
+		}()
+	}
+	wg.Wait()
 	return report(c, results, pkgFuncs, overlay, start, loadS)
 }
 
